@@ -29,7 +29,8 @@ def s1f14_body(ack, from_host):
 
 
 def run_trace(job):
-    tid, role, mode, inputs, seed, policy = job
+    tid, role, mode, inputs, seed, policy = job[:6]
+    instant = job[6] if len(job) > 6 else False
     hsmsrun.quiet_logging()
     simrt.install()
     rec = {"id": tid, "role": role, "mode": mode, "steps": [], "seed": seed, "policy": policy}
@@ -67,12 +68,35 @@ def run_trace(job):
                 out.append({"s": f["s"], "f": f["f"], "w": f["w"], "sys": sysc, "ack": ack})
             return out
 
-        for inp in inputs:
+        # instant mode: when the next input is the peer's S1F14, the peer sends it the moment it sees our S1F13 on the wire
+        # (from inside the endpoint's send), not after the endpoint has come to rest; the observation of the current step
+        # is taken at that moment
+        arm = {"ack": None, "snap": None, "sys": None}
+
+        def on_send(data):
+            if arm["ack"] is None:
+                return
+            for fr_ in link.parse_frames(data)[0]:
+                if fr_.get("stype") == 0 and fr_["s"] == 1 and fr_["f"] == 13:
+                    ack, arm["ack"] = arm["ack"], None
+                    arm["snap"] = {"frames": data_frames(None), "comm": len(comm), "cb": len(cbs), "cm": h.communication_state.current.name,
+                                   "now": s.now}
+                    arm["sys"] = fr_["system"]
+                    ep.link.feed(link.hsms_frame(stype=0, system=fr_["system"], session=0, stream=1, function=14, wbit=False,
+                                                 body=s1f14_body(ack, peer_is_host)))
+                    return
+
+        ep.link.on_send_hook = on_send
+        for idx, inp in enumerate(inputs):
             k = inp["k"]
             c0, b0 = len(comm), len(cbs)
             inbound = None
             pre = []
             dtc = "-"
+            nxt = inputs[idx + 1] if idx + 1 < len(inputs) else None
+            arm.update({"ack": None, "snap": None})
+            if instant and k in ("Timer", "LinkUp") and nxt is not None and nxt["k"] == "S1F14":
+                arm["ack"] = nxt["ack"]
             if k == "Enable":
                 if fact["en"]:
                     continue
@@ -111,6 +135,11 @@ def run_trace(job):
             elif k == "Timer":
                 nd = s.next_deadline()
                 if nd is None or nd - s.now > 1e5:
+                    if h.communication_state.current.name in ("WAIT_CRA", "WAIT_DELAY"):
+                        # an attempt cycle is pending but no timer is running: nothing will ever retry
+                        obs = {"frames": data_frames(None), "comm": 0, "cb": 0, "dt": "no-timer-running",
+                               "cm": h.communication_state.current.name}
+                        rec["steps"].append({"inp": inp, "obs": obs, "t": round(s.now, 3)})
                     continue
                 # advance until a timer of the establish-communications cycle fired (other timers, e.g. T6 of a
                 # pending control transaction, are not inputs of this monitor)
@@ -122,11 +151,17 @@ def run_trace(job):
                         break
                     s.block(("timer",), nd - s.now)
                     s.settle()
-                    if h.communication_state.current.name != cm0:
+                    if h.communication_state.current.name != cm0 or arm["snap"] is not None:
                         break
                 el = s.now - t_start
                 # earlier steps may have consumed up to 1 s of the running timer (close sequences poll in 0.2 s steps)
-                dtc = "T3" if t3 - 1.0 <= el <= t3 + 1e-6 else ("D" if D - 1.0 <= el <= D + 1e-6 else f"{el:.3f}")
+                slack = 0.5 if instant else 1e-6      # threads held back by wake_lag act up to a few 0.02 s after the deadline
+                dtc = "T3" if t3 - 1.0 <= el <= t3 + slack else ("D" if D - 1.0 <= el <= D + slack else f"{el:.3f}")
+            elif k == "S1F14" and arm["sys"] is not None:
+                # already sent by the instant peer during the previous step
+                if fact["link"] != "up":
+                    raise Machinery("instant S1F14 without link")
+                inbound, arm["sys"] = arm["sys"], None
             elif k in ("S1F13", "S1F14", "Other"):
                 if fact["link"] != "up":
                     continue
@@ -145,12 +180,34 @@ def run_trace(job):
             else:
                 raise ValueError(k)
             s.settle()
-            obs = {"frames": pre + data_frames(inbound), "comm": len(comm) - c0, "cb": len(cbs) - b0, "dt": dtc,
-                   "cm": h.communication_state.current.name}
-            rec["steps"].append({"inp": inp, "obs": obs, "t": round(s.now, 3)})
+            if arm["snap"] is not None:
+                sn = arm["snap"]
+                obs = {"frames": pre + sn["frames"], "comm": sn["comm"] - c0, "cb": sn["cb"] - b0, "dt": dtc, "cm": sn["cm"]}
+                rec["steps"].append({"inp": inp, "obs": obs, "t": round(sn["now"], 3), "instant_next": True})
+                comm_base, cb_base = sn["comm"], sn["cb"]
+                arm["snap"] = None
+                arm["carry"] = (comm_base, cb_base)
+                continue_obs = True
+            else:
+                if arm.get("carry") is not None and k == "S1F14":
+                    c0, b0 = arm["carry"]
+                    arm["carry"] = None
+                elif arm["ack"] is not None:
+                    # armed, but no S1F13 went out in this step: the peer's S1F14 of the next step is sent the ordinary way
+                    arm["ack"] = None
+                obs = {"frames": pre + data_frames(inbound), "comm": len(comm) - c0, "cb": len(cbs) - b0, "dt": dtc,
+                       "cm": h.communication_state.current.name}
+                rec["steps"].append({"inp": inp, "obs": obs, "t": round(s.now, 3)})
+        # end of history: a pending attempt cycle must have its timer running (else nothing ever retries)
+        cmf = h.communication_state.current.name
+        ndf = s.next_deadline()
+        if fact["en"] and cmf in ("WAIT_CRA", "WAIT_DELAY") and (ndf is None or ndf - s.now > 1e5):
+            rec["steps"].append({"inp": {"k": "Timer"}, "obs": {"frames": data_frames(None), "comm": 0, "cb": 0, "dt": "no-timer-running", "cm": cmf},
+                                 "t": round(s.now, 3)})
         rec["handler_errors"] = ep.link.handler_errors[:3]
 
-    s = simrt.run(main, seed=seed, policy=policy, switch_prob=0.3, max_vtime=1e7, wall_timeout=120)
+    s = simrt.run(main, seed=seed, policy=policy, switch_prob=0.3, max_vtime=1e7, wall_timeout=120,
+                  wake_lag=(("Timer", "secsgem", "Thread"), 0.3, 0.02) if instant else None)
     rec["outcome"] = s.outcome
     if s.outcome != "done":
         rec["wedge"] = s.wedge_info
@@ -182,7 +239,16 @@ def run(ctx: Ctx):
                     continue
                 tid += 1
                 pol = "fifo" if pi < len(paths) // 2 else "random"
-                jobs.append((tid, role, mode, [e["inp"] for e in p], rng.randrange(1 << 30), pol))
+                jobs.append((tid, role, mode, [e["inp"] for e in p], rng.randrange(1 << 30), pol, pi % 2 == 1))
+    # refused attempts answered at once, several times in a row, under schedules with late-resuming helper threads
+    refuse = [{"k": "Enable"}, {"k": "LinkUp"}] + [{"k": "S1F14", "ack": 1}, {"k": "Timer"}] * 3 + [{"k": "S1F14", "ack": 0}, {"k": "Other", "w": True}]
+    silent = [{"k": "Enable"}, {"k": "LinkUp"}, {"k": "Timer"}, {"k": "Timer"}, {"k": "S1F14", "ack": 1}, {"k": "Timer"}, {"k": "S1F14", "ack": 0}]
+    for role in ("host", "equipment", "equipment_online"):
+        for mode in ("passive", "active"):
+            for hist in (refuse, silent):
+                for pol in ("random", "pct", "random", "fifo"):
+                    tid += 1
+                    jobs.append((tid, role, mode, hist, rng.randrange(1 << 30), pol, True))
     traces = pmap(run_trace, jobs)
     for t in [t for t in traces if t["outcome"] != "done" or t.get("errors")][:3]:
         if "Machinery" in str(t.get("errors")):
@@ -224,6 +290,7 @@ def run(ctx: Ctx):
                                    f"{json.dumps(st['obs'])} is not allowed by the E30 monitor"})
     ctx.rule = ("histories = one shortest path per edge of the E30 monitor relation + random walks of 35 inputs, for host and "
                 "equipment handlers, passive and active HSMS mode; timer inputs advance virtual time exactly to the next "
-                "deadline; non-trivial = distinct histories that reach COMMUNICATING")
+                "deadline; in every second history the peer's S1F14 is sent the moment our S1F13 appears on the wire and helper threads "
+                "resume late; non-trivial = distinct histories that reach COMMUNICATING")
     ctx.assumptions += [f"establish-communications delay {D}s and T3 45s (virtual time)"]
     return ctx.finish()
